@@ -787,6 +787,7 @@ class Interp:
                     # a function item of another crate passed as a callable (`char::is_whitespace`): the call itself
                     return self._dispatch(f.path, list(tup.fields), st, depth, t, body, sp, crate, frame)
         self._cur_depth = depth
+        self._cur_body = body
         r = self.dom.call(self, name, args, st, t, frame)
         if r is not None:
             return self._norm(r)
